@@ -30,7 +30,20 @@ type caseC09 struct {
 	Note  string `json:"note,omitempty"`
 }
 
+// classifierTally compares the class a generated frame was built for with
+// the class the independent classifier in the reference decoder assigns to
+// the bytes (ref.RejectClass): two routes to the same domain.
+var classifierTally = map[string]int64{}
+
 func checkC09(frame []byte, class, note string) (sig, msg string) {
+	switch got := ref.RejectClass(frame); {
+	case got == class:
+		classifierTally["same"]++
+	case got == "":
+		classifierTally["no-claim"]++ // e.g. a loose base that is invalid for another reason first
+	default:
+		classifierTally["other:"+class+"->"+got]++
+	}
 	p, err, pan := decodeVia("ReadPacket", frame)
 	if pan != nil {
 		return "panic:" + panicSite(pan), fmt.Sprintf("class (%s) %s: ReadPacket panicked on %s: %v", class, note, hx(frame), pan.Value)
@@ -262,6 +275,9 @@ func TestC09(t *testing.T) {
 			}
 		}
 	})
+	for k, v := range classifierTally {
+		r.Count("byte-level classifier vs construction: "+k, v)
+	}
 	for _, cell := range []string{"a/u16/value", "a/u32/value", "a/str/prefix", "a/str/body", "a/bin/prefix", "a/prop/id-value", "a/proplen/vbi", "a/vbi/vbi", "a/pair/pair-middle", "b/remlen", "b/proplen", "b/vbi", "d/props", "d/willprops"} {
 		if r.ClassCount(cell) == 0 && !r.Failed() && *vf.Shards == 1 {
 			r.Note("class %s was not reached in this run", cell)
@@ -310,4 +326,37 @@ func hugeify(t *rapid.T, m *model.Packet) {
 	}
 	targets[rapid.IntRange(0, len(targets)-1).Draw(t, "hugetarget")]()
 	m.Normalize()
+}
+
+// FuzzMustReject: coverage-guided search from the byte side. The reference
+// decoder classifies the bytes; whenever they are a complete frame that is
+// valid up to a point where one of the four must-reject classes applies, the
+// library has to reject them.
+func FuzzMustReject(f *testing.F) {
+	for _, s := range fuzzSeeds() {
+		f.Add(s)
+		if len(s) > 3 {
+			// the same frame cut short with the remaining length patched
+			first, hdr, _, ok := ref.Split(s)
+			if ok {
+				for _, at := range []int{len(s) - 1, hdr + (len(s)-hdr)/2} {
+					if at > hdr {
+						f.Add(ref.Reframe(first, s[hdr:at]))
+					}
+				}
+			}
+		}
+	}
+	f.Fuzz(func(t *testing.T, data []byte) {
+		if len(data) > 1<<17 {
+			return
+		}
+		cls := ref.RejectClass(data)
+		if cls == "" {
+			return
+		}
+		if _, msg := checkC09(data, cls, "found by FuzzMustReject"); msg != "" {
+			t.Fatalf("%s", msg)
+		}
+	})
 }
